@@ -265,6 +265,11 @@ func classifyMapRange(f *Func, rs *ast.RangeStmt, extraPure map[string]bool) (st
 					if tv, ok := info.Types[ix.X]; ok {
 						if _, isMap := tv.Type.Underlying().(*types.Map); isMap {
 							checkExpr(ix.Index)
+							// a store under a key that does not depend on the element, of a value
+							// that does: whichever element is visited last wins
+							if pinned == 0 && !dependsOnIteration(info, rs, ix.Index) && i < len(x.Rhs) && dependsOnIteration(info, rs, x.Rhs[i]) && !singleEntryGuard(f, rs) {
+								sensitive = append(sensitive, "store of an element-dependent value under a key that is the same for every element ("+types.ExprString(ix)+"): the element visited last wins")
+							}
 							continue
 						}
 					}
@@ -502,4 +507,56 @@ func SortComparators(f *Func) []SortCall {
 		return true
 	})
 	return out
+}
+
+// dependsOnIteration reports whether e mentions the loop's key or value
+// variable or a variable declared inside the loop body.
+func dependsOnIteration(info *types.Info, rs *ast.RangeStmt, e ast.Expr) bool {
+	dep := false
+	ast.Inspect(e, func(n ast.Node) bool {
+		id, ok := n.(*ast.Ident)
+		if !ok {
+			return true
+		}
+		o := info.Uses[id]
+		if o == nil {
+			return true
+		}
+		if rs.Key != nil && ObjOf(info, rs.Key) == o || rs.Value != nil && ObjOf(info, rs.Value) == o {
+			dep = true
+		}
+		if _, isVar := o.(*types.Var); isVar && o.Pos() >= rs.Body.Pos() && o.Pos() <= rs.Body.End() {
+			dep = true
+		}
+		return !dep
+	})
+	return dep
+}
+
+// singleEntryGuard reports whether rs sits in the then-branch of an
+// `if len(X) == 1` on the very expression it ranges over.
+func singleEntryGuard(f *Func, rs *ast.RangeStmt) bool {
+	info := f.Pkg.TypesInfo
+	parent := ParentMap(f.Decl.Body)
+	for p := parent[rs]; p != nil; p = parent[p] {
+		is, ok := p.(*ast.IfStmt)
+		if !ok || !(rs.Pos() >= is.Body.Pos() && rs.End() <= is.Body.End()) {
+			continue
+		}
+		cmp, ok := Unparen(is.Cond).(*ast.BinaryExpr)
+		if !ok || cmp.Op != token.EQL {
+			continue
+		}
+		call, ok := Unparen(cmp.X).(*ast.CallExpr)
+		if !ok || len(call.Args) != 1 {
+			continue
+		}
+		if id, ok := call.Fun.(*ast.Ident); !ok || id.Name != "len" {
+			continue
+		}
+		if v, ok := ConstInt(info, cmp.Y); ok && v == 1 && SameExpr(info, call.Args[0], rs.X) {
+			return true
+		}
+	}
+	return false
 }
